@@ -666,7 +666,7 @@ func randStringCase(r *rand.Rand) string {
 var cliShapes = []string{"absent", "null", "scalar", "str", "map", "list:", "list:m", "list:s", "list:ms", "list:l", "list:n", "list:d", "list:md", "list:mm"}
 
 func gen(r *rand.Rand, tier string) []string {
-	n := 16000
+	n := 12000
 	nCli := 8
 	if tier == "thorough" {
 		n = 300000
